@@ -136,14 +136,19 @@ def check_trig_recombination(r, repo, rule="R17.3"):
                  f"the shortcut `{which}` is taken when `{lhs!r} {op} {rhs!r}`, a test of x itself, not of |x|: every negative argument takes the "
                  "shortcut and gets r = x together with the quadrant k of the genuine reduction", loc(REL, g))
             continue
-        qa, qb = ratio(lhs, absatom), ratio(rhs, "P_hi")
+        qa = ratio(lhs, absatom)
+        # the bound may use the head word alone or the double word: b_hi * P_hi + b_lo * P_lo (P_lo is below an ulp of P_hi)
+        qb = qlo = None
+        if isinstance(rhs, Poly) and set(rhs.t) <= {("P_hi",), ("P_lo",)} and ("P_hi",) in rhs.t:
+            qb, qlo = rhs.t[("P_hi",)], rhs.t.get(("P_lo",), 0)
         if qa is None or qb is None or qa <= 0:
-            raise AnalysisError(f"argument_reduction_trigonometric_impl: guard `{lhs!r} {op} {rhs!r}` of `{which}` is not of the form a*|x| < b*P_hi")
-        cfac = Fraction(qb) / Fraction(qa)
-        ok4 = 0 < cfac <= Fraction(1, 2)
+            raise AnalysisError(f"argument_reduction_trigonometric_impl: guard `{lhs!r} {op} {rhs!r}` of `{which}` is not of the form a*|x| < b*P_hi (+ b'*P_lo)")
+        cfac, clo = Fraction(qb) / Fraction(qa), Fraction(qlo) / Fraction(qa)
+        ok4 = 0 < cfac <= Fraction(1, 2) and 0 <= clo <= Fraction(1, 2)
         r.ob("R17.4", key, ok4,
-             f"the shortcut `{which}` is taken for |x| < {cfac} * P_hi: beyond P_hi / 2 the genuine reduction has k != 0, so r = x is returned with "
-             "a quadrant it does not belong to", loc(REL, g))
+             f"the shortcut `{which}` is taken for |x| < {cfac} * P_hi" + (f" + {clo} * P_lo" if clo else "") + ": beyond pi/4 the genuine reduction has k != 0, so "
+             "r = x (or t = 0: the low word of the remainder, which carries it next to a multiple of pi/2) is returned where the reduction proper is needed",
+             loc(REL, g))
 
 
 def run(repo, tier):
